@@ -18,9 +18,10 @@ EXPLANATION = (
     'array members: thunks are called left to right, none after the decisive one, and the only elements skipped are blanks; NOT negates the truth value of its single thunk; (C10.4) defaults of thunk '
     'parameters are callable Expr objects (validate_args does not convert defaults); (C10.5) the result of every thunk call '
     'in IF/AND/OR/NOT is tested for being an error value before its truth value is taken.'
-    ' (C10.2) also on value-class instances (0, FALSE, blank and the empty text select the else-branch); (C10.6) a failed branch evaluation leaves no trace on the evaluator (shared with C06.2).')
+    ' (C10.2) also on value-class instances (0, FALSE, blank and the empty text select the else-branch); (C10.6) a failed branch evaluation leaves no trace on the evaluator (shared with C06.2).'
+    ' (C10.7) a witness workbook: truth of tiny non-zero numbers, blanks, ranges of formula cells, branches that would fail if evaluated, nested IF/AND/OR against hand-computed values, and a history of edits against freshly compiled models.')
 NOT_DECIDED = 'truth tables over concrete values and blanks'
-TRUSTED = ['inspect.signature binding model of FunctionNode.eval']
+TRUSTED = ['inspect.signature binding model of FunctionNode.eval', 'workbook scenarios: pandas storage of range arrays as row-major rows, numpy on Python numbers (IEEE results, 64-bit integer wrap), dateutil.parser.parse rejecting texts that are no dates, openpyxl address arithmetic, inspect.signature built from the FunctionDef']
 
 LOGICALS = ('IF', 'AND', 'OR', 'NOT')
 
